@@ -432,6 +432,23 @@ def gen_half_unit(rng):
                  Post('Assets:Bank', 'R', Amt(-sign * pay, 2, '$'))])
 
 
+def add_cancelling_pair(rng, x):
+    """two more postings in a commodity the transaction does not use yet, cancelling exactly: the balance finalize tests
+    then holds a second (zero) entry - a BALANCE where it was an AMOUNT - and the verdict must not change"""
+    used = set()
+    for q in x.posts:
+        for a in [q.amt, q.cost[1] if q.cost else None, q.lot]:
+            if a is not None and a.sym:
+                used.add(a.sym)
+    free = [c for c in COMMS if c not in used]
+    if not free:
+        return x
+    a = Amt.rand(rng, rng.choice(free))
+    x.posts += [Post(acct_of(rng, 'R'), 'R', a), Post(acct_of(rng, 'R'), 'R', a.neg())]
+    rng.shuffle(x.posts)
+    return x
+
+
 def gen_two_commodity(rng):
     """two commodities, no costs, no null: the implied-rate branch (same/opposite signs, zero legs)"""
     x, y = rng.sample(list(COMMS), 2)
